@@ -116,6 +116,13 @@ let () =
                | "compile" -> implode (run_compile (unesc f.(6)) (parse_ns f.(5)))
                | "parse" -> implode (run_parse (unesc f.(6)) (parse_ns f.(5)))
                | "qdump" -> implode (run_qdump (unesc f.(6)) (parse_ns f.(5)))
+               | "cache" ->
+                 let e = implode (unesc f.(6)) in
+                 let i = String.index e ':' in
+                 let cap = nat_of_int (int_of_string (String.sub e 0 i)) in
+                 let rest = String.sub e (i + 1) (String.length e - i - 1) in
+                 let ks = if rest = "" then [] else List.map (fun x -> nat_of_int (int_of_string x)) (String.split_on_char ',' rest) in
+                 implode (run_cache_str cap ks)
                | "hash" -> let (d, _) = Hashtbl.find docs f.(3) in implode (run_hash d (parse_addr f.(4)))
                | "nav" -> let (d, _) = Hashtbl.find docs f.(3) in implode (run_nav d (unesc f.(6)) (parse_addr f.(4)))
                | "num" -> implode (run_num (unesc f.(5)) (unesc f.(6)))
